@@ -271,6 +271,10 @@ class LineRunner(Runner):
                 if link != want.path:
                     raise Violation(cls, "%s: descriptor %d is %s, expected file %s" % (
                         st.label(), fd, self.short(link), self.short(want.path)))
+                if got["fl"] & 0o4000:
+                    # (O_NONBLOCK on a redirected descriptor: reads return EAGAIN / writes fail instead of waiting)
+                    raise Violation(cls, "%s: descriptor %d on %s was opened non-blocking" % (
+                        st.label(), fd, self.short(want.path)))
                 if not getattr(want, "readonly", False):
                     if bool(got["fl"] & O_APPEND) != bool(want.append):
                         raise Violation(cls, "%s: descriptor %d on %s is %sopened for append" % (
